@@ -31,7 +31,7 @@ import pybtex.io
 from pybtex.bibtex import utils
 from pybtex.bibtex.exceptions import BibTeXError
 from pybtex.bibtex.names import format_name as format_bibtex_name
-from pybtex.errors import report_error
+from pybtex.errors import capture, report_error
 from pybtex.utils import memoize
 
 
@@ -181,9 +181,20 @@ def _split_names(names):
 
 
 @memoize
+def _format_name_and_reports(names, n, format):
+    # parsing the name may report problems (too many commas): they are part
+    # of the result, so that a cache hit reports them like a miss does
+    with capture() as reported:
+        name = _split_names(names)[n - 1]
+        formatted = format_bibtex_name(name, format)
+    return formatted, tuple(reported)
+
+
 def _format_name(names, n, format):
-    name = _split_names(names)[n - 1]
-    return format_bibtex_name(name, format)
+    formatted, reported = _format_name_and_reports(names, n, format)
+    for error in reported:
+        report_error(error)
+    return formatted
 
 
 @builtin('format.name$')
